@@ -87,6 +87,25 @@ def digest_renderers(F):
     return out
 
 
+def atomic_publishers(F):
+    """top-level fns of the bisync module that both create file content and rename: the delivery primitives (`copy_atomic`,
+    or whatever a refactor turned it into - `copy_checked(src, dst, expect)` with `copy_atomic` as a thin wrapper)"""
+    key = (id(F), 'publishers')
+    if key in _cache:
+        return _cache[key]
+    out = set()
+    for p, b in list(F.bodies.items()) + list(getattr(F, 'inlined', {}).items()):
+        if '::{' in p or not b.file.endswith('bin/copia/bidir.rs') or b.kind != 'fn':
+            continue
+        cs = {(_callee(t) or '') for _, t in _calls(F, b, lambda c: True)}
+        creates = any(c in tables.CONTENT_CREATORS and not c.endswith('OpenOptions::open') for c in cs)
+        renames = any(c.endswith('fs::rename') for c in cs)
+        if creates and renames:
+            out.add(p)
+    _cache[key] = out
+    return out
+
+
 def protected(F):
     """function paths that must stay functions (never spliced into their callers)"""
     out = set()
@@ -96,4 +115,5 @@ def protected(F):
         if m:
             out.add(m)
     out |= digest_renderers(F)
+    out |= atomic_publishers(F)
     return out
